@@ -2,8 +2,11 @@
 //! `socks5_client::connect` (credentials converted by the real `make_auth` /
 //! `make_extended_auth`) over a scripted in-memory transport, brute-force chunkings of the
 //! server's octets against the outcome TLC predicts, the forwarder's TCP connector end to
-//! end over loopback TCP for the failure mapping, and the RFC 1928 section 7 header through
-//! `UdpAssociation::{send_to, recv_from}` against a loopback relay.
+//! end over loopback TCP for the failure mapping (and, after success, the pipe ends it returns
+//! relayed against a destination behind the scripted server), the tunnel-level slice through
+//! the real `Tunnel` + HTTP/1.1 / HTTP/2 codecs with the real SOCKS5 forwarder (also run by
+//! C02 for the relay and by C20 for the log records), and the RFC 1928 section 7 header
+//! through `UdpAssociation::{send_to, recv_from}` against a loopback relay.
 //!
 //! `--totality` (C09): the reply reader and the relayed-datagram parser on the vectors of
 //! MCSocks5Tot.tla; signatures `c09:socks5:*`.
@@ -24,6 +27,16 @@ use std::sync::{Arc, Mutex};
 use std::task::{Context, Poll};
 use std::time::Duration;
 use tokio::io::{AsyncRead, AsyncWrite, ReadBuf};
+use bytes::Bytes;
+use tokio::io::{AsyncReadExt, AsyncWriteExt};
+use trusttunnel::authentication::{Authenticator, Source, Status};
+use trusttunnel::core::Core;
+use trusttunnel::settings::{
+    ForwardProtocolSettings, Http1Settings, Http2Settings, ListenProtocolSettings, Settings, Socks5ForwarderSettings,
+};
+use trusttunnel::shutdown::Shutdown;
+use trusttunnel::verif::pipe::{SinkOut, SourceOut, VData, VSink, VSource};
+use trusttunnel::verif::tunnel::{self, serve_tunnel, VProto};
 use trusttunnel::verif::socks::{
     self, Association, AuthParams, AuthView, Creds, ErrView, Outcome, ReqOutcome, SocksForwarder, Target,
 };
@@ -131,6 +144,8 @@ struct AuthRow {
 
 struct DestRow {
     kind: String,
+    /// the class of the address as the specification names it (ip4 / ip6 / ip6-mapped / ip6-low / name)
+    form: String,
     cmd: u64,
     addr: Vec<u8>,
     port: u16,
@@ -187,7 +202,7 @@ impl DestRow {
     }
 
     fn class(&self) -> String {
-        format!("{}{}/{}", if self.cmd == 3 { "udp-" } else { "" }, self.kind, if self.enc { "enc" } else { "unenc" })
+        format!("{}{}/{}", if self.cmd == 3 { "udp-" } else { "" }, self.form, if self.enc { "enc" } else { "unenc" })
     }
 }
 
@@ -224,6 +239,7 @@ fn load_tables(path: &str) -> Tables {
     for d in read_tagged(path, "DEST") {
         dest.insert(d["dest"].as_str().unwrap().to_string(), DestRow {
             kind: d["kind"].as_str().unwrap().to_string(),
+            form: d["form"].as_str().unwrap().to_string(),
             cmd: d["cmd"].as_u64().unwrap(),
             addr: bytes_of(&d["addr"]),
             port: d["port"].as_u64().unwrap() as u16,
@@ -357,6 +373,12 @@ struct Beh<'a> {
     chunks: Vec<usize>,
     preload: bool,
     relay_port_at: usize,
+    /// tunnel level: the scenario is also run with a destination behind the server
+    tun: bool,
+    /// what the client side of the tunnel must read after success (the destination's octets)
+    down: Vec<u8>,
+    /// what the client uploads once the tunnel is established
+    upload: Vec<u8>,
 }
 
 impl<'a> Beh<'a> {
@@ -377,7 +399,19 @@ impl<'a> Beh<'a> {
             chunks: s["chunks"].as_array().map(|a| a.iter().map(|x| x.as_u64().unwrap() as usize).collect()).unwrap_or_default(),
             preload: s["preload"].as_bool().unwrap(),
             relay_port_at: v["relayPortAt"].as_u64().unwrap() as usize,
+            tun: s["tun"].as_bool().unwrap(),
+            down: bytes_of(&v["down"]),
+            upload: bytes_of(&v["upload"]),
         }
+    }
+
+    /// what the SOCKS5 server must have received when the request is over: the messages, then the upload
+    fn expected_at_server(&self) -> (Vec<u8>, Option<(usize, usize)>) {
+        let (mut want, wild) = self.expected_written(self.emit.len());
+        if self.accept.contains("Established") {
+            want.extend_from_slice(&self.upload);
+        }
+        (want, wild)
     }
 
     fn msg(&self, name: &str) -> &[u8] {
@@ -520,6 +554,12 @@ fn main() {
     }
 
     let mut rep = Report::new("c15");
+    let started = std::time::Instant::now();
+    let phase = |name: &str| {
+        if std::env::var_os("C15_TIMES").is_some() {
+            eprintln!("[{:7.2}s] {}", started.elapsed().as_secs_f64(), name);
+        }
+    };
     let tables = load_tables(&vectors);
     if tables.auth.is_empty() || tables.dest.is_empty() {
         panic!("no AUTH/DEST tables in {}", vectors);
@@ -638,6 +678,7 @@ fn main() {
         }
     }
     rep.count("tlc_behaviours_replayed", behs.len() as u64);
+    phase("behaviours replayed");
 
     // ---- every chunking of the server's octets, against the outcome TLC predicts --------
     let mut seg = 0u64;
@@ -701,9 +742,15 @@ fn main() {
     }
     rep.evals(seg);
     rep.count("brute_force_chunkings", seg);
+    phase("chunkings done");
 
     // ---- the forwarder's TCP connector end to end (failure mapping) ----------------------
     forwarder_level(&rt, &behs, &mut rep, thorough);
+
+    // ---- the real Tunnel + HTTP codecs with the SOCKS5 forwarder ---------------------------
+    phase("forwarder level done");
+    tunnel_level(&rt, &behs, relay_port, &mut rep);
+    phase("tunnel level done");
 
     // ---- RFC 1928 section 7 through a real association ---------------------------------
     match udp_assoc {
@@ -772,11 +819,17 @@ fn forwarder_level(rt: &tokio::runtime::Runtime, behs: &[Beh], rep: &mut Report,
     let mut n = 0u64;
     let mut resets = 0u64;
     let cap = if thorough { 8000 } else { 3000 };
-    for b in behs {
+    // the tunnel-level scenarios first (the cap must not cut them)
+    let mut order: Vec<&Beh> = behs.iter().filter(|b| b.tun).collect();
+    order.extend(behs.iter().filter(|b| !b.tun));
+    let mut relayed = 0u64;
+    for b in order {
         // only dialogues in which the client reads the server's stream to its end: a client
         // closing with unread octets resets the connection and the scripted server may lose
-        // octets it has not read yet
-        if !b.chunks.is_empty() || b.dest.wild_port || b.used != b.stream.len() || n >= cap {
+        // octets it has not read yet. After success the pipe's source is read to the end of the
+        // stream, so a destination behind the server may have sent anything.
+        let success = b.accept.len() == 1 && b.accept.contains("Established");
+        if !b.chunks.is_empty() || b.dest.wild_port || !(b.used == b.stream.len() || (b.tun && success)) || n >= cap {
             continue;
         }
         let class = b.class();
@@ -795,12 +848,21 @@ fn forwarder_level(rt: &tokio::runtime::Runtime, behs: &[Beh], rep: &mut Report,
                                          "expected": {"emit": b.emit, "acceptReq": b.v["acceptReq"]}, "observed": obs});
         let res = guarded(format!("socks5:fwd-hang:{}", class), "the TCP connector did not return", detail(json!(null)), || {
             rt.block_on(async {
-                tokio::time::timeout(Duration::from_secs(15),
-                    f.tcp_connect(&p.creds, &p.tls_domain, p.client_address, p.user_agent.as_deref(), &target)).await
+                tokio::time::timeout(Duration::from_secs(15), async {
+                    let mut pipe = None;
+                    let out = f.tcp_connect_pipe(&p.creds, &p.tls_domain, p.client_address, p.user_agent.as_deref(), &target, &mut pipe).await;
+                    // the connection the connector returns is the tunnel: upload through its sink,
+                    // read its source to the destination's end of stream
+                    let relay = match pipe.take() {
+                        Some((mut src, mut snk)) => Some(relay_through(&mut src, &mut snk, &b.upload).await),
+                        None => None,
+                    };
+                    (out, relay)
+                }).await
             })
         });
         let got = got_rx.recv_timeout(Duration::from_secs(15));
-        let out = match res {
+        let (out, relay) = match res {
             Err(pn) => {
                 rep.violation_with(format!("socks5:fwd-panic:{}", class), format!("the TCP connector panicked: {}", pn), || detail(json!({"panic": pn})));
                 continue;
@@ -818,9 +880,13 @@ fn forwarder_level(rt: &tokio::runtime::Runtime, behs: &[Beh], rep: &mut Report,
         if !clean {
             resets += 1;
         }
-        let (want, _) = b.expected_written(b.emit.len());
+        let (want, _) = b.expected_at_server();
         if clean && got != want {
-            rep.violation_with(format!("socks5:fwd-emit:{}", class), format!("the SOCKS5 server received {} ; the specification's messages {:?} are {}", short_hex(&got), b.emit, short_hex(&want)),
+            // the messages are the dialogue's business, what follows them is the tunnel's
+            let msgs = want.len() - if success { b.upload.len() } else { 0 };
+            let what = if success && got.len() >= msgs && got[..msgs] == want[..msgs] { "fwd-up" } else { "fwd-emit" };
+            rep.violation_with(format!("socks5:{}:{}", what, class), format!("the SOCKS5 server received {} ; the specification's messages {:?}{} are {}", short_hex(&got), b.emit,
+                    if b.upload.is_empty() { String::new() } else { format!(" and the {} uploaded octets", b.upload.len()) }, short_hex(&want)),
                 || detail(json!({"received": short_hex(&got), "result": format!("{:?}", out)})));
             continue;
         }
@@ -828,10 +894,457 @@ fn forwarder_level(rt: &tokio::runtime::Runtime, behs: &[Beh], rep: &mut Report,
         if !b.accept_req.contains(tok) {
             rep.violation_with(format!("socks5:fwd-result:{}", class), format!("the request ended as {} ({:?}); the specification accepts {:?}", tok, out, b.accept_req),
                 || detail(json!({"result": format!("{:?}", out)})));
+            continue;
+        }
+        // the tunnel: what the pipe reads after the reply is the destination's octets, all of them and nothing else
+        if let Some((down, err)) = relay {
+            relayed += 1;
+            let bnd = b.v["scn"]["bnd"].as_str().unwrap_or("?");
+            if let Some(e) = err {
+                rep.violation_with(format!("socks5:fwd-relay-error:{}:bnd-{}", class, bnd), format!("relaying through the connector's pipe ends failed: {}", e),
+                    || detail(json!({"read": short_hex(&down), "error": e})));
+            } else if down != b.down {
+                rep.violation_with(format!("socks5:fwd-down:{}:bnd-{}", class, bnd),
+                    format!("after the reply the pipe's source delivered {} octets {} ; the destination sent {} octets {}", down.len(), short_hex(&down), b.down.len(), short_hex(&b.down)),
+                    || detail(json!({"read": short_hex(&down), "destination_sent": short_hex(&b.down)})));
+            }
         }
     }
     rep.count("forwarder_level_requests", n);
+    rep.count("forwarder_level_relays", relayed);
     rep.count("forwarder_level_resets", resets);
+}
+
+// ---------------------------------------------------------------------------------------
+// tunnel level: Tunnel::listen + HttpDownstream + the HTTP/1.1 and HTTP/2 codecs with the real
+// Socks5Forwarder (selected by the settings, not scripted) against a scripted SOCKS5 server on
+// loopback TCP behind which a destination sends `down` and receives the client's upload.
+// Everything the endpoint logs on the way is searched for the credentials (C20).
+
+struct AcceptAll;
+
+impl Authenticator for AcceptAll {
+    fn authenticate(&self, _: &Source<'_>, _: &trusttunnel::log_utils::IdChain<u64>) -> Status {
+        Status::Pass
+    }
+}
+
+struct Serve {
+    script: Vec<u8>,
+    /// octets the client side is expected to send in all (the server ends its side once it has them)
+    want_len: usize,
+}
+
+#[derive(Default)]
+struct Served {
+    connected: bool,
+    got: Vec<u8>,
+    /// false: the connection was reset (what the client had sent may be lost to the server)
+    clean: bool,
+    timed_out: bool,
+}
+
+/// The scripted SOCKS5 server: per job one connection. It says everything it has to say at once
+/// (replies and the destination's octets: TCP is a byte stream, how it is cut is not the
+/// client's business), ends its side once the client's octets are there, and reads to the end.
+fn scripted_socks_server(listener: std::net::TcpListener, jobs: std::sync::mpsc::Receiver<Serve>, done: std::sync::mpsc::Sender<Served>,
+                         cancel: Arc<std::sync::atomic::AtomicBool>) {
+    listener.set_nonblocking(true).expect("nonblocking listener");
+    let mut timeouts = 0u32;
+    while let Ok(job) = jobs.recv() {
+        let conn = loop {
+            match listener.accept() {
+                Ok((c, _)) => break Some(c),
+                Err(e) if e.kind() == std::io::ErrorKind::WouldBlock => {
+                    if cancel.load(Ordering::SeqCst) {
+                        break None;
+                    }
+                    std::thread::sleep(Duration::from_millis(1));
+                }
+                Err(_) => break None,
+            }
+        };
+        let Some(mut c) = conn else {
+            if done.send(Served::default()).is_err() {
+                break;
+            }
+            continue;
+        };
+        let _ = c.set_nonblocking(false);
+        // a client side that sends less than the specification says keeps this server waiting; that
+        // scenario is a violation (the octets differ), and the ones after it wait less long
+        let patience = if timeouts == 0 { 8 } else { 1 };
+        let _ = c.set_read_timeout(Some(Duration::from_secs(patience)));
+        let _ = c.set_nodelay(true);
+        // acknowledge at once: the forwarder's socket (Nagle) would otherwise hold small writes back
+        // for the delayed-acknowledgement timer, which only costs time
+        let quickack = |c: &std::net::TcpStream| unsafe {
+            use std::os::fd::AsRawFd;
+            let one: libc::c_int = 1;
+            libc::setsockopt(c.as_raw_fd(), libc::IPPROTO_TCP, libc::TCP_QUICKACK, &one as *const _ as *const libc::c_void, std::mem::size_of::<libc::c_int>() as libc::socklen_t);
+        };
+        quickack(&c);
+        let mut r = Served { connected: true, clean: true, ..Default::default() };
+        let _ = c.write_all(&job.script);
+        let mut buf = [0u8; 16384];
+        let mut ended = false;
+        while r.got.len() < job.want_len && !ended {
+            quickack(&c);
+            match c.read(&mut buf) {
+                Ok(0) => ended = true,
+                Ok(n) => r.got.extend_from_slice(&buf[..n]),
+                Err(e) if matches!(e.kind(), std::io::ErrorKind::WouldBlock | std::io::ErrorKind::TimedOut) => {
+                    r.timed_out = true;
+                    break;
+                }
+                Err(_) => {
+                    r.clean = false;
+                    ended = true;
+                }
+            }
+        }
+        let _ = c.shutdown(std::net::Shutdown::Write);
+        while !ended {
+            match c.read(&mut buf) {
+                Ok(0) => ended = true,
+                Ok(n) => r.got.extend_from_slice(&buf[..n]),
+                Err(e) if matches!(e.kind(), std::io::ErrorKind::WouldBlock | std::io::ErrorKind::TimedOut) => {
+                    r.timed_out = true;
+                    ended = true;
+                }
+                Err(_) => {
+                    r.clean = false;
+                    ended = true;
+                }
+            }
+        }
+        if r.timed_out {
+            timeouts += 1;
+        }
+        if done.send(r).is_err() {
+            break;
+        }
+    }
+}
+
+#[derive(Default, Debug)]
+struct TunObs {
+    status: Option<u16>,
+    /// what followed the response head on the client's side
+    down: Vec<u8>,
+    /// the client saw the end of the stream
+    ended: bool,
+    note: String,
+}
+
+const STEP: Duration = Duration::from_secs(15);
+
+#[allow(clippy::too_many_arguments)]
+async fn tunnel_request(core: &'static Core, proto: VProto, peer: SocketAddr, server_name: String, sni: Option<String>,
+                        authority: String, basic: Option<String>, upload: Vec<u8>, relay: bool) -> TunObs {
+    let mut obs = TunObs::default();
+    let (mut cio, sio) = tokio::io::duplex(1 << 20);
+    let task = tokio::spawn(async move {
+        let _ = serve_tunnel(core, proto, sio, peer, server_name, sni).await;
+    });
+    match proto {
+        VProto::Http1 => {
+            let mut head = format!("CONNECT {a} HTTP/1.1\r\nHost: {a}\r\n", a = authority);
+            if let Some(x) = &basic {
+                head += &format!("Proxy-Authorization: Basic {}\r\n", x);
+            }
+            head += "\r\n";
+            if cio.write_all(head.as_bytes()).await.is_err() {
+                obs.note = "the endpoint closed before the request was written".into();
+            }
+            let mut buf: Vec<u8> = Vec::new();
+            let mut tmp = [0u8; 16384];
+            let mut head_end = None;
+            while head_end.is_none() && !obs.ended {
+                match tokio::time::timeout(STEP, cio.read(&mut tmp)).await {
+                    Ok(Ok(0)) | Ok(Err(_)) => obs.ended = true,
+                    Ok(Ok(n)) => buf.extend_from_slice(&tmp[..n]),
+                    Err(_) => {
+                        obs.note = "no response head within 15 s".into();
+                        break;
+                    }
+                }
+                head_end = buf.windows(4).position(|w| w == b"\r\n\r\n").map(|p| p + 4);
+            }
+            if let Some(he) = head_end {
+                obs.status = std::str::from_utf8(&buf[..he]).ok().and_then(|h| h.split(' ').nth(1).and_then(|x| x.parse().ok()));
+                if obs.status == Some(200) && relay {
+                    let _ = cio.write_all(&upload).await;
+                    let _ = cio.flush().await;
+                    while !obs.ended {
+                        match tokio::time::timeout(STEP, cio.read(&mut tmp)).await {
+                            Ok(Ok(0)) | Ok(Err(_)) => obs.ended = true,
+                            Ok(Ok(n)) => buf.extend_from_slice(&tmp[..n]),
+                            Err(_) => {
+                                obs.note = "the tunnel did not end within 15 s of the destination's end of stream".into();
+                                break;
+                            }
+                        }
+                    }
+                    obs.down = buf[he..].to_vec();
+                }
+            }
+            drop(cio);
+        }
+        VProto::Http2 => {
+            let r: Result<(), String> = async {
+                let (mut send, conn) = tokio::time::timeout(STEP, h2::client::handshake(cio)).await.map_err(|_| "h2 handshake timed out".to_string())?.map_err(|e| e.to_string())?;
+                let conn_task = tokio::spawn(async move {
+                    let _ = conn.await;
+                });
+                let mut rb = http::Request::builder().method("CONNECT").uri(authority.as_str());
+                if let Some(x) = &basic {
+                    rb = rb.header("proxy-authorization", format!("Basic {}", x));
+                }
+                let req = rb.body(()).map_err(|e| format!("request: {}", e))?;
+                std::future::poll_fn(|cx| send.poll_ready(cx)).await.map_err(|e| e.to_string())?;
+                let (resp, mut up) = send.send_request(req, false).map_err(|e| e.to_string())?;
+                let resp = tokio::time::timeout(STEP, resp).await.map_err(|_| "no response within 15 s".to_string())?.map_err(|e| format!("response: {}", e))?;
+                obs.status = Some(resp.status().as_u16());
+                if resp.status() == 200 && relay {
+                    if !upload.is_empty() {
+                        up.send_data(Bytes::from(upload.clone()), false).map_err(|e| e.to_string())?;
+                    }
+                    let mut body = resp.into_body();
+                    loop {
+                        match tokio::time::timeout(STEP, body.data()).await {
+                            Ok(Some(Ok(ch))) => {
+                                let _ = body.flow_control().release_capacity(ch.len());
+                                obs.down.extend_from_slice(&ch);
+                            }
+                            Ok(Some(Err(e))) => {
+                                obs.note = format!("the stream failed: {}", e);
+                                break;
+                            }
+                            Ok(None) => {
+                                obs.ended = true;
+                                break;
+                            }
+                            Err(_) => {
+                                obs.note = "the stream did not end within 15 s of the destination's end of stream".into();
+                                break;
+                            }
+                        }
+                    }
+                    let _ = up.send_data(Bytes::new(), true);
+                }
+                drop(send);
+                tokio::time::sleep(Duration::from_millis(1)).await;
+                conn_task.abort();
+                Ok(())
+            }
+            .await;
+            if let Err(e) = r {
+                obs.note = e;
+            }
+        }
+    }
+    let mut task = task;
+    if tokio::time::timeout(Duration::from_secs(3), &mut task).await.is_err() {
+        task.abort();
+    }
+    obs
+}
+
+/// how the HTTP request names the destination, when it can
+fn authority_of(d: &DestRow) -> Option<String> {
+    if d.cmd == 3 {
+        return Some("_udp2".to_string());
+    }
+    if d.kind == "ip" {
+        return Some(SocketAddr::new(ip_of(&d.addr), d.port).to_string());
+    }
+    if d.addr.is_empty() || !d.addr.iter().all(|c| c.is_ascii_alphanumeric() || *c == b'-' || *c == b'.') {
+        return None;
+    }
+    Some(format!("{}:{}", text(&d.addr), d.port))
+}
+
+fn tunnel_level(rt: &tokio::runtime::Runtime, behs: &[Beh], relay_port: u16, rep: &mut Report) {
+    let listener = std::net::TcpListener::bind("127.0.0.1:0").expect("listener");
+    let addr = listener.local_addr().unwrap();
+    let (job_tx, job_rx) = std::sync::mpsc::channel::<Serve>();
+    let (done_tx, done_rx) = std::sync::mpsc::channel::<Served>();
+    let cancel = Arc::new(std::sync::atomic::AtomicBool::new(false));
+    {
+        let cancel = cancel.clone();
+        std::thread::spawn(move || scripted_socks_server(listener, job_rx, done_tx, cancel));
+    }
+    // without an authenticator the credentials of a request go to the SOCKS5 server unchecked;
+    // SNI credentials are only taken from a connection an authenticator has accepted
+    let mk = |extended: bool, accept_all: bool| -> &'static Core {
+        let settings = Settings::builder()
+            .listen_address("127.0.0.1:1").unwrap()
+            .listen_protocols(ListenProtocolSettings {
+                http1: Some(Http1Settings::builder().build()),
+                http2: Some(Http2Settings::builder().build()),
+                quic: None,
+            })
+            .forwarder_settings(ForwardProtocolSettings::Socks5(
+                Socks5ForwarderSettings::builder().server_address(addr).unwrap().extended_auth(extended).build().expect("socks settings"),
+            ))
+            .allow_private_network_connections(true)
+            .build().expect("settings");
+        let authenticator: Option<Arc<dyn Authenticator>> = if accept_all { Some(Arc::new(AcceptAll)) } else { None };
+        Box::leak(Box::new(Core::new(settings, authenticator, tunnel_env::hosts_settings(), Shutdown::new()).expect("core")))
+    };
+    let _g = rt.enter();
+    let cores = [[mk(false, false), mk(false, true)], [mk(true, false), mk(true, true)]];
+    tunnel::set_forwarder(None);
+
+    let mut n = 0u64;
+    let mut skipped = 0u64;
+    let mut too_long = 0u64;
+    let mut seen = BTreeSet::new();
+    for b in behs {
+        if !b.tun || !b.chunks.is_empty() || b.preload {
+            continue;
+        }
+        // what HTTP can carry: a destination that is an authority, no User-Agent that is not text
+        let Some(authority) = authority_of(b.dest) else { skipped += 1; continue };
+        if b.auth.ext == "e4ua" {
+            skipped += 1;
+            continue;
+        }
+        if !seen.insert(b.ident()) {
+            continue;
+        }
+        let class = b.class();
+        let bnd = b.v["scn"]["bnd"].as_str().unwrap_or("?").to_string();
+        let p = b.auth.params();
+        let (basic, sni) = match &p.creds {
+            Creds::None => (None, None),
+            Creds::Basic(x) => (Some(x.clone()), None),
+            Creds::Sni(x) => (None, Some(x.clone())),
+        };
+        let core = cores[if p.extended { 1 } else { 0 }][if sni.is_some() { 1 } else { 0 }];
+        // a UDP multiplexer request only talks to the SOCKS5 server when there are credentials to check
+        let udp = b.dest.wild_port;
+        if udp && basic.is_none() && sni.is_none() {
+            skipped += 1;
+            continue;
+        }
+        let expect_ok = b.accept.len() == 1 && (b.accept.contains("Established") || (udp && b.accept.contains("UdpAssociated")));
+        let (want, wild) = b.expected_at_server();
+        let stream = b.stream_for(relay_port);
+        for proto in [VProto::Http1, VProto::Http2] {
+            let pname = if proto == VProto::Http1 { "h1" } else { "h2" };
+            // the HTTP/1.1 codec takes request heads of up to 1024 octets (http1_codec::MAX_RAW_HEADERS_SIZE):
+            // longer credentials only come over HTTP/2
+            if proto == VProto::Http1 && basic.as_ref().map(|x| x.len()).unwrap_or(0) + 2 * authority.len() > 900 {
+                too_long += 1;
+                continue;
+            }
+            n += 1;
+            rep.eval();
+            rep.nontrivial(format!("tun|{}|{}", pname, b.ident()));
+            logcap::set_scenario(&format!("tunnel {} {}", pname, class));
+            if n % 211 == 5 {
+                rep.sample(json!({"level": "tunnel", "proto": pname, "scn": b.v["scn"], "authority": authority, "expect_ok": expect_ok, "down": b.down.len(), "upload": b.upload.len()}));
+            }
+            // connections left over from an earlier scenario are not this one's
+            cancel.store(false, Ordering::SeqCst);
+            job_tx.send(Serve { script: stream.clone(), want_len: want.len() }).expect("server thread");
+            let detail = |obs: Value| json!({"kind": "tunnel", "proto": pname, "scn": b.v["scn"], "authority": authority, "stream": short_hex(&b.stream), "x": String::from_utf8_lossy(&b.auth.x),
+                                             "expected": {"emit": b.emit, "accept": b.v["accept"], "down": short_hex(&b.down), "upload": b.upload.len()}, "observed": obs});
+            let peer = SocketAddr::new(p.client_address, 40000);
+            let t0 = std::time::Instant::now();
+            let res = guarded(format!("socks5:tun-hang:{}", class), "the tunnel did not return", detail(json!(null)), || {
+                rt.block_on(tunnel_request(core, proto, peer, p.tls_domain.clone(), sni.clone(), authority.clone(), basic.clone(), b.upload.clone(), !udp))
+            });
+            cancel.store(true, Ordering::SeqCst);
+            let t1 = t0.elapsed();
+            let served = done_rx.recv_timeout(Duration::from_secs(30));
+            if std::env::var_os("C15_TIMES").is_some() && t0.elapsed() > Duration::from_millis(10) {
+                eprintln!("slow {:?}/{:?} {} {} {:?}", t1, t0.elapsed(), pname, class, res.as_ref().map(|o| (o.status, o.ended, o.note.clone())));
+            }
+            let obs = match res {
+                Err(pn) => {
+                    rep.violation_with(format!("socks5:tun-panic:{}", class), format!("the endpoint panicked: {}", pn), || detail(json!({"panic": pn})));
+                    continue;
+                }
+                Ok(o) => o,
+            };
+            let Ok(served) = served else {
+                rep.note(format!("tunnel level: the scripted server did not report for {}", class));
+                continue;
+            };
+            let o = json!({"status": obs.status, "down": short_hex(&obs.down), "ended": obs.ended, "note": obs.note,
+                           "server": {"connected": served.connected, "received": short_hex(&served.got), "clean": served.clean, "timed_out": served.timed_out}});
+            if served.clean && !same_written(&served.got, &want, wild) {
+                let msgs = want.len() - if expect_ok && !udp { b.upload.len() } else { 0 };
+                let what = if expect_ok && !udp && served.got.len() >= msgs && same_written(&served.got[..msgs], &want[..msgs], wild) { "tun-up" } else { "tun-emit" };
+                rep.violation_with(format!("socks5:{}:{}", what, class),
+                    format!("the SOCKS5 server received {} ; the specification's messages {:?}{} are {}", short_hex(&served.got), b.emit,
+                            if expect_ok && !b.upload.is_empty() { format!(" and the {} uploaded octets", b.upload.len()) } else { String::new() }, short_hex(&want)),
+                    || detail(o.clone()));
+                continue;
+            }
+            match obs.status {
+                None => {
+                    rep.violation_with(format!("socks5:tun-noresponse:{}", class), format!("the request was not answered ({})", obs.note), || detail(o.clone()));
+                    continue;
+                }
+                Some(st) if (st == 200) != expect_ok => {
+                    rep.violation_with(format!("socks5:tun-result:{}", class),
+                        format!("the request was answered {} ; the specification accepts {:?}", st, b.accept_req), || detail(o.clone()));
+                    continue;
+                }
+                _ => {}
+            }
+            if expect_ok && !udp {
+                if obs.down != b.down {
+                    rep.violation_with(format!("socks5:tun-down:{}:bnd-{}", class, bnd),
+                        format!("through the tunnel the client received {} octets {} ; the destination sent {} octets {}", obs.down.len(), short_hex(&obs.down), b.down.len(), short_hex(&b.down)),
+                        || detail(o.clone()));
+                } else if !obs.ended {
+                    rep.violation_with(format!("socks5:tun-noend:{}:bnd-{}", class, bnd),
+                        format!("the destination's end of stream did not reach the client ({})", obs.note), || detail(o.clone()));
+                }
+            }
+        }
+    }
+    rep.count("tunnel_level_requests", n);
+    rep.count("tunnel_level_not_expressible", skipped);
+    rep.count("tunnel_level_too_long_for_http1", too_long);
+}
+
+/// Upload through the sink and end it, then read the source to its end. Returns what was read
+/// and the first error.
+async fn relay_through(src: &mut SourceOut, snk: &mut SinkOut, upload: &[u8]) -> (Vec<u8>, Option<String>) {
+    let mut down = Vec::new();
+    let up = async {
+        let mut rest = Bytes::copy_from_slice(upload);
+        while !rest.is_empty() {
+            snk.wait_writable().await.map_err(|e| format!("wait_writable: {}", e))?;
+            rest = snk.write(rest).map_err(|e| format!("write: {}", e))?;
+        }
+        snk.flush().await.map_err(|e| format!("flush: {}", e))?;
+        snk.eof().map_err(|e| format!("eof: {}", e))?;
+        snk.flush().await.map_err(|e| format!("flush after eof: {}", e))?;
+        Ok::<(), String>(())
+    }
+    .await;
+    if let Err(e) = up {
+        return (down, Some(e));
+    }
+    loop {
+        match src.read().await {
+            Ok(VData::Chunk(c)) => {
+                down.extend_from_slice(&c);
+                if let Err(e) = src.consume(c.len()) {
+                    return (down, Some(format!("consume: {}", e)));
+                }
+            }
+            Ok(VData::Eof) => return (down, None),
+            Err(e) => return (down, Some(format!("read: {}", e))),
+        }
+    }
 }
 
 // ---------------------------------------------------------------------------------------
